@@ -1,6 +1,7 @@
 package main
 
 import (
+	"regexp"
 	"fmt"
 	"math"
 	"math/big"
@@ -229,6 +230,42 @@ func itemTokens(r *rand.Rand, n *Node, forms bool, out *[]STok) {
 	add(">", gluePrev|glueNext, false)
 }
 
+var sizeDeclRe = regexp.MustCompile(`^\[(\d*)(\.\.)?(\d*)\]$`)
+
+// spellSize respells a size declaration without changing what it denotes: leading zeros on the
+// bounds (they are decimal), and blanks, tabs, line breaks inside the brackets where the
+// lexer allows them (after '[', after a number, after '..').
+func spellSize(r *rand.Rand, decl string, zeros, ws, crlf bool) string {
+	m := sizeDeclRe.FindStringSubmatch(decl)
+	if m == nil {
+		return decl
+	}
+	gap := func() string {
+		if !ws || r.Intn(2) == 0 {
+			return ""
+		}
+		nl := "\n"
+		if crlf {
+			nl = "\r\n"
+		}
+		return []string{" ", "\t", nl, "  ", " " + nl, "\r"}[r.Intn(6)]
+	}
+	num := func(d string) string {
+		if d == "" {
+			return ""
+		}
+		if zeros && r.Intn(2) == 0 {
+			d = strings.Repeat("0", 1+r.Intn(3)) + d
+		}
+		return d + gap()
+	}
+	out := "[" + gap() + num(m[1])
+	if m[2] != "" {
+		out += ".." + gap() + num(m[3])
+	}
+	return out + "]"
+}
+
 // msgTokens renders a whole message.
 func msgTokens(r *rand.Rand, m *MsgDesc, forms bool) []STok {
 	var out []STok
@@ -239,7 +276,9 @@ func msgTokens(r *rand.Rand, m *MsgDesc, forms bool) []STok {
 	case 2:
 		out = append(out, STok{"[W]", 0, true})
 	}
-	out = append(out, STok{m.Dir, 0, true})
+	if !(forms && m.Dir == "H<->E" && r.Intn(3) == 0) { // the default direction may be left out
+		out = append(out, STok{m.Dir, 0, true})
+	}
 	if m.Name != "" {
 		out = append(out, STok{m.Name, 0, false})
 	}
@@ -257,6 +296,8 @@ type Layout struct {
 	Comments bool
 	CRLF     bool
 	VaryCase bool
+	SizeWs   bool // white space inside size declarations
+	SizeZero bool // leading zeros on size bounds
 }
 
 var commentTexts = []string{"", " note", " voilà", " \xa0", " x\x85", " tab\there", " // nested", ` "quote`, " <L x>", " S1F1 W .", " trailing   ", " \t ", "日本語", " \xff\xfe", " 100% \v", " a\fb", " é", " …", " Ω  "}
@@ -330,6 +371,9 @@ func (l *Layout) render(toks []STok) (string, [][2]int) {
 		}
 		pos = append(pos, [2]int{line, col})
 		s := t.Text
+		if (l.SizeWs || l.SizeZero) && strings.HasPrefix(s, "[") {
+			s = spellSize(l.R, s, l.SizeZero, l.SizeWs, l.CRLF)
+		}
 		if l.VaryCase && t.CaseVar {
 			s = caseVary(l.R, s)
 		}
@@ -345,7 +389,8 @@ func (l *Layout) render(toks []STok) (string, [][2]int) {
 func plainLayout(r *rand.Rand) *Layout { return &Layout{R: r} }
 
 func randomLayout(r *rand.Rand) *Layout {
-	return &Layout{R: r, Compact: r.Intn(2) == 0, Comments: r.Intn(3) > 0, CRLF: r.Intn(3) == 0, VaryCase: r.Intn(2) == 0}
+	return &Layout{R: r, Compact: r.Intn(2) == 0, Comments: r.Intn(3) > 0, CRLF: r.Intn(3) == 0, VaryCase: r.Intn(2) == 0,
+		SizeWs: r.Intn(3) == 0, SizeZero: r.Intn(4) == 0}
 }
 
 // expressible message descriptions: names the header lexer reads as one name token
